@@ -1,5 +1,6 @@
 SPECIFICATION Spec
 CONSTANTS
+  Accounting = "split"
   L = 3
   G = 10
   Variant = "fixed"
